@@ -8,6 +8,11 @@ NOTE = ("Trusted: go/ssa translation (x/tools v0.29.0), the engine's SSA semanti
         "Claim is bounded: every input inside the per-harness bounds recorded in the evidence; nothing outside them. ")
 
 claimed = {
+ "C16": dict(text="Bounded model checking of one step of the block store (lib/chain BlockDB) from an arbitrary well-formed on-disk state: two stored blocks with arbitrary trusted / invalid flags (index and data file built in the store's own format), "
+                  "then open + index walk, one block added, optionally flushed, optionally an old block marked trusted or invalid, close and reopen, with a cache of 1 or 10 blocks and with or without data-file roll-over: "
+                  "every block not marked invalid is read back byte-identical by its hash (from cache, queue or disk), the index walk lists exactly the non-invalid blocks with height, size, transaction count and trusted flag, and appending overwrites none of them.",
+             ref="6/C16", note=NOTE + "Under the engine the files are an in-memory map inside the harness (os / *os.File functions replaced); native replays run the same steps on real files. "
+                  "Outside: compression (snappy resolves to assembly), blocks beyond 82 bytes, more than two stored blocks, retention (files to keep / backup), longer histories, crashes (C07). "),
  "C19": dict(text="Bounded model checking of the embedded key-value store (lib/others/qdb) against an in-memory map with the crash point as a variable: every workload of 3 (thorough 4) operations from "
                   "{Put, Del, Sync, Defrag(force), Close+reopen} on two keys with arbitrary two-byte values, syncing on every change or on demand, run on a file map in which every create / write / remove is a possible crash point: "
                   "after every operation Get and Count agree with the map; after a clean Close or a crash before the k-th file operation (k arbitrary) a reopen succeeds and every key holds its last synced value or one written later, exactly the last one after a clean Close.",
@@ -74,7 +79,6 @@ na = {
  "C07": "quantifies over OS file-system states between syscalls (crash points); nothing there is code the encoder can execute (DESIGN.md 6/C07)",
  "C11": "quantifies over thread interleavings; the engine executes one sequential schedule (DESIGN.md 6/C11)",
  "C12": "invariant over histories of five mutually referencing global pointer maps and sorted lists whose ordering and replacement decisions are float64 fee-rate comparisons (SPW/SPB): a symbolic pre-state satisfying the pool's representation invariant cannot be built within this engine (pointer-rich heap, no symbolic floats), and enumerating concrete pools would not be solver-based checking (DESIGN.md 6/C12)",
- "C16": "real-file I/O with a background writer; snappy resolves to assembly on amd64 (no SSA) (DESIGN.md 6/C16)",
  "C20": "the allocator hands out uintptr addresses inside mmap'ed pages and casts them to typed pointers; deciding it needs a raw-memory model (byte-addressed pages aliasing typed objects) that this go/ssa encoder does not have, and the routing arithmetic alone is not the property (DESIGN.md 0.3, 6/C20)",
 }
 
